@@ -3,7 +3,7 @@ package rules
 func init() {
 	register(&Property{
 		ID:      "C06",
-		Explain: "FOLD of the fragmenting writer. (1) reserve(): for every buffer size (interval cells, split where the code compares) and both sides the reserved header space is >= ws.HeaderSize of the largest payload the buffer can hold, so the header always fits right-aligned before the payload. (2) flushFragment is evaluated at 8 concrete buffer shapes x opcode x fseq x fin x 0-2 extensions with named payload lanes; the single slice handed to dest.Write is compared byte for byte with the RFC frame: opcode or continuation, Fin, extension bits, length, mask key iff client, payload ciphered with that same key at offset 0 iff client. (3) Effect tables of Flush / FlushFragment / WriteThrough / opCode over n, dirty, fseq, failed, side: Flush emits one final fragment iff something was written and then n=0, dirty=false, fseq=0; FlushFragment emits one non-final fragment iff the buffer is non-empty and counts it; WriteThrough refuses a non-empty buffer, sends Fin=false with a pooled masked copy iff client. (4) Write / ReadFrom are evaluated with a concrete buffer and the length of p as interval cells: accepted count == len(p), no emission while the data fits (no pre-emptive flush), none at all with flushing disabled. NOT decided: byte accounting over arbitrary call histories and all sizes. ReadFrom is folded over sources that return data, EOF, an error, or data together with EOF / an error: the result and the buffer account for every byte handed over. Writer folds vary composite states (client|extended): the side is a flag, not a value. FlushFragment must leave the message dirty so that the final Flush emits the final frame. Grow is folded on concrete buffers (buffered bytes kept behind the new reservation, power-of-two size, room for n more bytes); Reset recomputes the reservation for the new side (C18.writer-reset). SetExtensions replaces the attached extensions (it does not accumulate); ResetOp is folded from every combination of leftovers. FlushFragment on an empty buffer leaves the writer exactly as it was (no fragment is counted). counter-width: every struct field the code increments (the fragment number fseq, buffer fill, stream positions) is as wide as int - a narrower one wraps on a long message.",
+		Explain: "FOLD of the fragmenting writer. (1) reserve(): for every buffer size (interval cells, split where the code compares) and both sides the reserved header space is >= ws.HeaderSize of the largest payload the buffer can hold, so the header always fits right-aligned before the payload. (2) flushFragment is evaluated at 8 concrete buffer shapes x opcode x fseq x fin x 0-2 extensions with named payload lanes; the single slice handed to dest.Write is compared byte for byte with the RFC frame: opcode or continuation, Fin, extension bits, length, mask key iff client, payload ciphered with that same key at offset 0 iff client. (3) Effect tables of Flush / FlushFragment / WriteThrough / opCode over n, dirty, fseq, failed, side: Flush emits one final fragment iff something was written and then n=0, dirty=false, fseq=0; FlushFragment emits one non-final fragment iff the buffer is non-empty and counts it; WriteThrough refuses a non-empty buffer, sends Fin=false with a pooled masked copy iff client. (4) Write / ReadFrom are evaluated with a concrete buffer and the length of p as interval cells: accepted count == len(p), no emission while the data fits (no pre-emptive flush), none at all with flushing disabled. NOT decided: byte accounting over arbitrary call histories and all sizes. ReadFrom is folded over sources that return data, EOF, an error, or data together with EOF / an error: the result and the buffer account for every byte handed over. Writer folds vary composite states (client|extended): the side is a flag, not a value. FlushFragment must leave the message dirty so that the final Flush emits the final frame. Grow is folded on concrete buffers (buffered bytes kept behind the new reservation, power-of-two size, room for n more bytes); Reset recomputes the reservation for the new side (C18.writer-reset). SetExtensions replaces the attached extensions (it does not accumulate); ResetOp is folded from every combination of leftovers. FlushFragment on an empty buffer leaves the writer exactly as it was (no fragment is counted). counter-width: every struct field the code increments (the fragment number fseq, buffer fill, stream positions) is as wide as int - a narrower one wraps on a long message. Write and ReadFrom are also folded on a buffer with spare capacity behind its length (NewWriterBuffer(arena[:n])): free space is len(buf)-n, never cap(buf)-n.",
 		Trusted: []string{"go/ssa + go/types", "the checker's abstract evaluator", "ws.WriteHeader layout (decided under C01)", "ws.Cipher (C02)"},
 		Run: func(c *Ctx) {
 			writerReserveRules(c, "C06")
